@@ -22,8 +22,9 @@ from harness.armi_env import armi_ready
 MODDIR = os.path.join(common.SPEC, "xs")
 
 NUC = ["U235", "U238", "FE56", "NA23"]  # nuclides 1..4 of the specifications (allNuclidesInProblem)
-COMP_AREA = [2.0, 3.0]  # McCompArea
-HOLDS = [[0, 1], [1, 2]]  # McHolds (0-based nuclide indices)
+# component areas and held nuclides (0-based) by number of components: McCompArea/McHolds and McCompArea3/McHolds3
+GEOMETRY = {2: ([2.0, 3.0], [[0, 1], [1, 2]]), 3: ([1.0, 2.0, 4.0], [[0, 1], [1, 2], [2, 3]])}
+COMP_FLAGS = {2: ["fuel", "clad"], 3: ["fuel", "clad", "duct"]}
 AW = [2.0, 3.0, 5.0, 7.0]  # McAW: set on the real nuclides while by-component temperatures (mass weighted) are compared
 RTOL = 1e-9  # a handful of double operations per average
 ATOL = 1e-12  # averages that are exactly 0 in the model come out as sums of products with 0.0
@@ -170,24 +171,54 @@ FILTER_TYPES = {"all": None, "fuel": ["fuel"], "fuelcontrol": ["fuel", "control"
 ALL_TYPES = ["fuel", "control", "reflector"]
 
 
-def make_block(name, rec):
+def make_block(name, rec, shape="circle"):
     """HexBlock with two solid Circle components of areas 2 and 3 (Custom material, no expansion) holding the record's values."""
     armi_ready()
     from armi.reactor import blocks, components
 
     b = blocks.HexBlock(name, height=float(rec["h"]))
-    for ci, area in enumerate(COMP_AREA):
+    nc = len(rec["t"])
+    areas, holds = GEOMETRY[nc]
+    # components are stored in the order rec["ord"] (1-based indices into the sorted order); default: sorted
+    for pos in rec.get("ord") or range(1, nc + 1):
+        ci = pos - 1
         t = float(rec["t"][ci])
-        c = components.Circle("%s-c%d" % (name, ci), "Custom", Tinput=t, Thot=t, od=math.sqrt(4.0 * area / math.pi), id=0.0, mult=1)
-        c.setType("fuel" if ci == 0 else ("duct" if rec.get("alt") else "clad"))
-        c.p.numberDensities = {NUC[k]: float(rec["n"][ci][k]) for k in HOLDS[ci]}
+        if shape == "rect":  # the slab option accepts rectangles only
+            c = components.Rectangle("%s-c%d" % (name, ci), "Custom", Tinput=t, Thot=t, lengthOuter=areas[ci], widthOuter=1.0,
+                                     lengthInner=0.0, widthInner=0.0, mult=1)
+        else:
+            c = components.Circle("%s-c%d" % (name, ci), "Custom", Tinput=t, Thot=t, od=math.sqrt(4.0 * areas[ci] / math.pi), id=0.0, mult=1)
+        c.setType("bond" if ci == 1 and rec.get("alt") else COMP_FLAGS[nc][ci])
+        c.p.numberDensities = {NUC[k]: float(rec["n"][ci][k]) for k in holds[ci]}
         b.add(c)
+    if rec.get("lfp"):
+        b.setLumpedFissionProducts(make_lfps())
     b.setType(KIND_TYPE[rec["kind"]])
     b.p.percentBu = float(rec["bu"])
     b.p.massHmBOL = float(rec["hm"])
     b.p.flux = float(rec["w"])
     warm(b)
     return b
+
+
+def make_lfps():
+    """a small lumped-fission-product collection (one lump with two fission products), built with the library's own classes"""
+    from armi.nucDirectory import nuclideBases
+    from armi.physics.neutronics.fissionProductModel import lumpedFissionProduct as lfpm
+
+    coll = lfpm.LumpedFissionProductCollection()
+    lump = lfpm.LumpedFissionProduct("LFP35")
+    lump[nuclideBases.byName["XE135"]] = 1.2
+    lump[nuclideBases.byName["CS137"]] = 0.8
+    coll["LFP35"] = lump
+    return coll
+
+
+def lfp_print(b):
+    coll = b.getLumpedFissionProductCollection()
+    if coll is None:
+        return None
+    return tuple(sorted((name, tuple(sorted((nb.name, y) for nb, y in lump.yld.items()))) for name, lump in coll.items()))
 
 
 def warm(b):
@@ -217,7 +248,7 @@ def fingerprint(b):
         return (type(o).__name__, o.name, tuple((k, _norm(v)) for k, v in sorted(o.p.items())))
 
     loc = b.spatialLocator
-    return (one(b), tuple(one(c) + (float(c.temperatureInC),) for c in b),
+    return (one(b) + (lfp_print(b),), tuple(one(c) + (float(c.temperatureInC),) for c in b),
             None if loc is None else tuple(int(x) for x in loc.getCompleteIndices()) if hasattr(loc, "getCompleteIndices") else repr(loc))
 
 
@@ -240,12 +271,12 @@ class Pool:
         self.name_rev = name_rev
         self.blocks = {}
 
-    def get(self, pos, rec):
-        key = (pos, json.dumps(rec, sort_keys=True))
+    def get(self, pos, rec, shape="circle"):
+        key = (pos, shape, json.dumps(rec, sort_keys=True))
         hit = self.blocks.get(key)
         if hit is None:
             name = "b%02d" % ((50 - pos) if self.name_rev else pos)
-            b = make_block(name, rec)
+            b = make_block(name, rec, shape)
             hit = self.blocks[key] = [b, fingerprint(b)]
         return key, hit[0], hit[1]
 
@@ -271,12 +302,16 @@ def observe_rep(bc, newb, exp, members):
         got = comps[ci].temperatureInC
         if not close(fr(e), got):
             return "ctemp", "temperature of component %d: specification %r, observed %r" % (ci + 1, fr(e), float(got))
+    if not exp["ntemp"] and bc.avgNucTemperatures:
+        return "ntemp", "specification: no nuclide temperatures for this option; observed %r" % (bc.avgNucTemperatures,)
     for k, e in enumerate(exp["ntemp"]):
         got = bc.avgNucTemperatures.get(NUC[k])
         if got is None or not close(fr(e), got):
             return "ntemp", "temperature of nuclide %s: specification %r, observed %r" % (NUC[k], fr(e), got)
     if not close(fr(exp["bu"]), newb.p.percentBu):
         return "bu", "burnup: specification %r, observed %r" % (fr(exp["bu"]), float(newb.p.percentBu))
+    if (lfp_print(newb) is not None) != exp["lfp"]:
+        return "lfp", "lumped fission products on the new block: %r, specification: %s" % (lfp_print(newb), exp["lfp"])
     return None
 
 
@@ -288,7 +323,7 @@ def run_case(case, pool):
     opt, exp = case["opt"], case["rep"]
     keys, members, prints = [], [], []
     for pos, rec in enumerate(case["ms"], 1):
-        k, b, f = pool.get(pos, rec)
+        k, b, f = pool.get(pos, rec, "rect" if opt["rep"] == "ComponentAverage1DSlab" else "circle")
         keys.append(k)
         members.append(b)
         prints.append(f)
@@ -322,6 +357,11 @@ def run_case(case, pool):
                         newb.getHeight(), exp["src"], src.getHeight()))
                 if out is None and opt["rep"] == "Median" and newb.getName() != src.getName():
                     out = ("src", "median copy of %s, specification: member %d (%s)" % (newb.getName(), exp["src"], src.getName()))
+                if out is None and exp["lfp"] and lfp_print(newb) != lfp_print(src):
+                    out = ("lfp", "lumped fission products %r differ from those of the source member %r" % (lfp_print(newb), lfp_print(src)))
+                if out is None and exp["lfp"] and opt["rep"] == "Median" and (
+                        newb.getLumpedFissionProductCollection() is src.getLumpedFissionProductCollection()):
+                    out = ("lfp", "the median copy shares the lumped-fission-product collection of the member")
     finally:
         for k, b, f in zip(keys, members, prints):
             d = fingerprint_diff(f, fingerprint(b))
@@ -332,7 +372,7 @@ def run_case(case, pool):
     return out
 
 
-REP_QUICK_SAMPLE = {"dens": 1600, "temp": 1200, "burn": 1600, "kind": 1200, "tri": 2400}
+REP_QUICK_SAMPLE = {"dens": 1500, "temp": 1000, "burn": 1400, "kind": 1000, "tri": 2000, "cyl": 1500, "cyl3": 800, "lfp": 400, "ord": 400, "perm": 600}
 
 
 def check_rep(rep, tier, seed):
@@ -352,7 +392,13 @@ def check_rep(rep, tier, seed):
             raise tlc.MachineryError("vacuous: XsGroupsRep_mc%s.cfg explored %d states / %d edges" % (sfx, res.distinct, res.generated))
     eres = run_tlc("XsGroupsRep_mc", "XsGroupsRep_emit%s.cfg" % sfx, workers=1, coverage=False)
     rep.add_tlc("cases:XsGroupsRep_emit%s.cfg" % sfx, eres)
-    cases = [p for p in eres.prints if isinstance(p, dict) and "opt" in p]
+    # three-component blocks stored in all six orders: other constants, hence its own run (laws and cases together)
+    pres = run_tlc("XsGroupsRep_mc", "XsGroupsRep_perm.cfg", workers=1, coverage=False)
+    rep.add_tlc("exhaustive+cases:XsGroupsRep_perm.cfg", pres)
+    if pres.violation:
+        rep.violation("tlc:rep:" + pres.violation["name"], "TLC: %s violated in XsGroupsRep (three components)" % pres.violation["name"],
+                      {"direction": "tlc", "trace": pres.violation["trace"][:20000]})
+    cases = [p for p in eres.prints + pres.prints if isinstance(p, dict) and "opt" in p]
     if not cases:
         raise tlc.MachineryError("no representative-block cases emitted")
     by_fam = {}
@@ -407,7 +453,7 @@ BOOKKEEPING = ("envGroup", "envGroupNum")  # refreshed by the manager-level call
 def block_fingerprint(b):
     f = fingerprint(b)
     head = f[0]
-    return ((head[0], head[1], tuple(kv for kv in head[2] if kv[0] not in BOOKKEEPING)), f[1], f[2])
+    return ((head[0], head[1], tuple(kv for kv in head[2] if kv[0] not in BOOKKEEPING), head[3]), f[1], f[2])
 
 
 class ManagerAdapter:
@@ -426,9 +472,11 @@ class ManagerAdapter:
             ctl = {}
             for c in s["ctl"]:
                 o = c["opt"]
-                ctl[c["id"]] = {"geometry": "0D", "blockRepresentation": o["rep"],
+                ctl[c["id"]] = {"geometry": "1D cylinder" if o["rep"] == "ComponentAverage1DCylinder" else "0D",
+                                "blockRepresentation": o["rep"],
                                 "validBlockTypes": ALL_TYPES if o["filter"] == "all" else FILTER_TYPES[o["filter"]],
-                                "averageByComponent": o["byComp"]}
+                                "averageByComponent": o["byComp"],
+                                "xsTempIsotope": NUC[c["iso"] - 1] if c.get("iso", 2) else ""}
             self._cs[name] = settings.Settings().modified(newSettings={
                 "buGroups": list(s["bub"]), "tempGroups": list(s["tb"]), "xsBlockRepresentation": s["grep"],
                 "disableBlockTypeExclusionInXsGeneration": s["gfilter"] == "all", "crossSectionControl": ctl})
@@ -536,7 +584,7 @@ class ManagerAdapter:
                         w["src"] = {}
                         for xsid, rb in csm.representativeBlocks.items():
                             cands = w["groups"][xsid].getCandidateBlocks()
-                            w["src"][xsid] = names.get(rb.getName()) or (pos.get(id(cands[0]), 0) if cands else 0)
+                            w["src"][xsid] = names.get(rb.getName()) or (pos.get(id(source_of(w["groups"][xsid], cands)), 0) if cands else 0)
                 else:
                     raise AssertionError("unknown action " + n)
             finally:
@@ -596,7 +644,7 @@ def diff_manager(exp, got, scn):
         src = e["src"]
         if g["height"] != float(scn["blk"][src - 1]["h"]):
             return ".reps.src: %s has height %r, its source block %d has %r" % (e["id"], g["height"], src, scn["blk"][src - 1]["h"])
-        if not g["name"].startswith("AVG_") and g["named"] != src:
+        if "AVG_" not in g["name"] and g["named"] != src:
             return ".reps.src: %s is a copy of block %r, specification: block %d" % (e["id"], g["name"], src)
         for k, x in enumerate(e["dens"]):
             if not close(fr(x), g["dens"][k]):
@@ -716,6 +764,11 @@ def check_manager(rep, tier, seed):
 TRACE_BU = [0, 1, 3, 4, 7, 10, 11, 40]
 TRACE_T1 = [300, 400, 500, 700, 800]  # never on a temperature bound (450, 600): the real temperature is a float quotient
 TRACE_W = [0, 0, 1, 2, 3]
+
+
+def source_of(coll, cands):
+    """the member an averaging collection copies its new block from, as the collection itself tells"""
+    return coll._selectCandidateBlock() if hasattr(coll, "_selectCandidateBlock") else cands[0]
 
 
 def discrete(w, got):
